@@ -31,3 +31,32 @@ fn probe_player(s: &Showdown) {
     assert_send_sync_val(&s.players()[0]);
     assert_send_sync_val(s.players());
 }
+
+// Not only the auto traits: values built on one thread from local inputs must be
+// movable into a spawned thread (which demands 'static) and shareable behind an
+// Arc. If an evaluator, iterator, range or showdown starts borrowing from its
+// inputs this stops compiling (E0597 / E0521 / "borrowed value does not live
+// long enough"), which the C15 check reports like a lost Send/Sync bound.
+pub fn probe_moves() {
+    use std::sync::Arc;
+    let board = [None::<Card>; 5];
+    let ranges: Vec<HandRange> = vec![HandRange::empty()];
+    let evaluator = FlopExhaustiveEvaluator::new(&board, &ranges);
+    let evaluator2 = FlopExhaustiveEvaluator::new(&board, &ranges);
+    let range = ranges[0].clone();
+    drop(ranges);
+    let iterator = evaluator2.into_iter();
+    let h1 = std::thread::spawn(move || evaluator.into_iter().count());
+    let h2 = std::thread::spawn(move || {
+        let mut it = iterator;
+        let first: Option<Showdown> = it.next();
+        let shared = Arc::new(first);
+        let s2 = shared.clone();
+        let h = std::thread::spawn(move || s2.as_ref().as_ref().map(|s| s.winner_len()));
+        (h.join().ok(), shared.as_ref().as_ref().map(|s| s.probability()), it.count())
+    });
+    let shared_range = Arc::new(range);
+    let r2 = shared_range.clone();
+    let h3 = std::thread::spawn(move || r2.card_pairs().len());
+    let _ = (h1.join(), h2.join(), h3.join(), shared_range.to_string());
+}
